@@ -275,10 +275,31 @@ class ArrayWorld(object):
             raise Skip(oid)
         return o
 
+    SIZE_CAP = 40000      # elements; "big" runs would otherwise multiply their way to hundreds of millions of cells
+
+    def too_large(self, ids):
+        """Would an operation over these pool objects, broadcast against each other, exceed the size cap?"""
+        dims = {}
+        for i in ids:
+            o = self.objs.get(i)
+            if isinstance(o, self.da.DimArray):
+                for d, n in zip(o.dims, o.shape):
+                    dims[d] = max(dims.get(d, 1), n)
+            elif isinstance(o, self.da.Dataset):
+                for ax in o.axes:
+                    dims[ax.name] = max(dims.get(ax.name, 1), ax.size)
+        est = 1
+        for n in dims.values():
+            est *= max(1, n)
+        return est > self.SIZE_CAP
+
     def store(self, oid, obj, parents=(), fresh=False):
         if oid is None or oid in self.objs:
             return
         if not isinstance(obj, (self.da.DimArray, self.da.Dataset)):
+            return
+        if isinstance(obj, self.da.DimArray) and obj.size > self.SIZE_CAP:
+            self.count("result_too_large_not_kept")
             return
         self.objs[oid] = obj
         self.order.append(oid)
@@ -508,6 +529,9 @@ class ArrayWorld(object):
             for i in operands:
                 self.get(i)
         except Skip:
+            return "skipped"
+        if self.too_large(operands):
+            self.count("skipped_too_large")
             return "skipped"
         c15 = "C15" in self.props
         c05 = "C05" in self.props
